@@ -433,6 +433,34 @@ def growth_cases():
         raw = bytes(head) + b'\0' * ((-len(head)) % 8) + body
         return raw, (lambda: message.parseMessage(raw, []))
 
+    def deep_nesting(k):
+        # a well-formed message whose one-byte body sits in k structs (and, second shape, an empty array of arrays k deep around them)
+        sig = '(' * k + 'y' + ')' * k
+        arr = [[1, W.Variant('o', '/o')], [3, W.Variant('s', 'M')], [8, W.Variant('g', sig)]]
+        body = b'\x05'
+        head = W.encode('yyyyuua(yv)', [ord('l'), 1, 0, 1, len(body), 1, arr], 0, True)
+        raw = head + W.pad(len(head), 8) + body
+        return raw, (lambda: message.parseMessage(raw, []))
+
+    def deep_array_nesting(k):
+        sig = 'a' * k + '(' * k + 'y' + ')' * k
+        arr = [[1, W.Variant('o', '/o')], [3, W.Variant('s', 'M')], [8, W.Variant('g', sig)]]
+        body = struct.pack('<I', 0) + (b'\0' * 4 if k == 0 else b'')
+        head = W.encode('yyyyuua(yv)', [ord('l'), 1, 0, 1, len(body), 1, arr], 0, True)
+        raw = head + W.pad(len(head), 8) + body
+        return raw, (lambda: message.parseMessage(raw, []))
+
+    # nesting depth: the cost may grow with the square of the depth (bracket matching per level), never exponentially
+    for name, fam, scale in (('one byte in nested structs', deep_nesting, 15), ('an empty array of arrays of nested structs', deep_array_nesting, 15)):
+        d1, f1 = fam(scale)
+        d2, f2 = fam(2 * scale)
+        s1, o1 = steps_of(f1, 200000)
+        if o1 == 'BUDGET':
+            return '%s, %d levels: more than %d interpreter steps for %d bytes' % (name, scale, s1 - 1, len(d1)), {'family': name, 'scales': [scale]}
+        s2, o2 = steps_of(f2, 6 * s1 + 4000)
+        if o2 == 'BUDGET':
+            return '%s: %d levels take %d interpreter steps, %d levels more than %d: worse than the square of the depth' % (name, scale, s1, 2 * scale, s2 - 1), {'family': name, 'scales': [scale, 2 * scale]}
+
     for name, fam, scale in (('body signature sent as an oversized STRING header field', oversized_signature, 200), ('nested variants', nested_variants, 20),
                              ('body signature sent as an array of strings', signature_as_string_array, 200),
                              ('variant whose inline signature runs past its declared length', lying_signature_length, 200),
@@ -461,12 +489,24 @@ def retention_case():
     msgs = []
     for k in range(60):
         extra = [(40 + k % 7, 's', big), (200, 'as', [big[:500]] * 4)]
-        msgs.append(ref_message(1, 0, k + 1, [(1, '/o'), (3, 'M')], 's', ['x'], k % 2 == 0, extra_fields=extra))
-        msgs.append(ref_message(4, 0, k + 1, [(1, '/o'), (2, 'a.b'), (3, 'S')], 'as', [[big[:300]] * 3], True, extra_fields=extra)[:-5])    # body cut short
+        msgs.append(ref_message(1, 0, k + 1, [(1, '/o'), (3, 'M'), (8, 's')], 's', ['x'], k % 2 == 0, extra_fields=extra))
+        msgs.append(ref_message(4, 0, k + 1, [(1, '/o'), (2, 'a.b'), (3, 'S'), (8, 'as')], 'as', [[big[:300]] * 3], True, extra_fields=extra)[:-5])    # body cut short
         msgs.append(message.SignalMessage('/a', 'Sig', 'org.x.Y', signature='ay', body=[bytearray(b'z' * 3000)]).rawMessage)
 
-    def run():
-        for raw in msgs:
+    # ... and every round brings body signatures never seen before (a peer chooses them freely): nothing is kept per signature either
+    srnd = random.Random(977)
+
+    def fresh_signatures(n_):
+        out = []
+        for k in range(n_):
+            sig = ''.join(srnd.choice('ybnqiuxt') for _ in range(srnd.randrange(120, 250)))
+            raw = ref_message(4, 0, 1000 + k, [(1, '/o'), (2, 'a.b'), (3, 'S'), (8, sig)], sig, [0 if c != 'b' else False for c in sig], k % 2 == 0)
+            out.append(raw if k % 2 else raw[:-3])          # every other one is cut short and rejected
+        return out
+    fresh = [fresh_signatures(40) for _ in range(4)]
+
+    def run(round_=0):
+        for raw in msgs + fresh[round_]:
             try:
                 message.parseMessage(raw, [])
             except Exception:
@@ -476,8 +516,8 @@ def retention_case():
     tracemalloc.start()
     try:
         base = tracemalloc.get_traced_memory()[0]
-        for _ in range(3):
-            run()
+        for r_ in range(3):
+            run(r_ + 1)
         gc.collect()
         held = tracemalloc.get_traced_memory()[0] - base
     finally:
